@@ -6,6 +6,7 @@ package p2p
 import (
 	"bufio"
 	"encoding/json"
+	"errors"
 	"fmt"
 	"net"
 	"os"
@@ -298,11 +299,15 @@ func (sr *syncRig) restart() error {
 	return sr.srv.Start()
 }
 
+var errDial = errors.New("dial failed")
+
 func (sr *syncRig) connect(p, b int) error {
 	d := net.Dialer{LocalAddr: &net.TCPAddr{IP: net.IPv4(127, 0, 0, byte(10+p))}, Timeout: 3 * time.Second}
 	c, err := d.Dial("tcp", "127.0.0.1:"+sr.params.DefaultPort)
 	if err != nil {
-		return err
+		// the machine could not give this node a connection (no free port, listen queue full): not an observation
+		delete(sr.nodes, p)
+		return fmt.Errorf("%w: %v", errDial, err)
 	}
 	n := &node{id: p, conn: c, pongs: make(chan uint64, 16), net: sr.params.Net, byHash: sr.byHash}
 	sr.nodes[p] = n
@@ -512,6 +517,9 @@ func opSync() error {
 				consumed[st.P] = 0
 				everClosed[st.P] = false
 				opErr = sr.connect(st.P, st.B)
+				if errors.Is(opErr, errDial) {
+					shaky = true
+				}
 				if opErr != nil && bannedConnect {
 					opErr = nil // refused during the handshake: also a refusal
 					if n := sr.nodes[st.P]; n != nil {
